@@ -511,14 +511,14 @@ func (aw *aclWorker) drop(mode string, obs *aclsim.Account) { delete(aw.lists, m
 
 func aclOpts(depth int) func(bool) mutate.Opts {
 	return func(thorough bool) mutate.Opts {
-		return mutate.Opts{Kinds: "S B1 B2 B3 F1", SmallMax: 2, AllBytes: thorough, Depth: depth, RepMax: 256 << 10}
+		return mutate.Opts{Kinds: "S B1 B2 B3 F1", SmallMax: 2, AllBytes: thorough, Depth: depth, RepMax: 128 << 10}
 	}
 }
 
 // aclOptsNoSmall: the small strings only in the thorough tier (the ValidateRawRecord entry runs them in both).
 func aclOptsNoSmall(depth int) func(bool) mutate.Opts {
 	return func(thorough bool) mutate.Opts {
-		o := mutate.Opts{Kinds: "B1 B2 B3 F1", AllBytes: thorough, Depth: depth, RepMax: 256 << 10}
+		o := mutate.Opts{Kinds: "B1 B2 B3 F1", AllBytes: thorough, Depth: depth, RepMax: 128 << 10}
 		if thorough {
 			o.Kinds, o.SmallMax = "S B1 B2 B3 F1", 2
 		}
